@@ -13,6 +13,8 @@ from __future__ import annotations
 
 import itertools
 import math
+import signal
+import threading
 
 import numpy as np
 
@@ -272,8 +274,24 @@ def inner_intervals(start, end, m):
             if start < a and b < end and b - a >= m and (a - start) + (end - b) >= m]
 
 
-def attempt(fn):
+class NonTermination(Exception):
+    """Raised by the watchdog of `attempt` when a call into the real code does not return in time."""
+
+
+def attempt(fn, seconds=10.0):
+    """(value, None) or (None, exception).  A watchdog (main thread only) turns a call that does not return within
+    `seconds` into NonTermination instead of hanging the driver."""
+    guard = threading.current_thread() is threading.main_thread() and hasattr(signal, "setitimer")
+    if guard:
+        def on_alarm(signum, frame):
+            raise NonTermination(f"no result after {seconds} s")
+        old = signal.signal(signal.SIGALRM, on_alarm)
+        signal.setitimer(signal.ITIMER_REAL, seconds)
     try:
         return fn(), None
     except Exception as e:          # noqa: BLE001 - the drivers classify the exception
         return None, e
+    finally:
+        if guard:
+            signal.setitimer(signal.ITIMER_REAL, 0)
+            signal.signal(signal.SIGALRM, old)
